@@ -221,6 +221,8 @@ impl Table {
             return None;
         }
         let buffer = std::mem::take(buffer.deref_mut());
+        #[cfg(feature = "verif")]
+        crate::verif::sync_point(&format!("flush:batch:taken:{}", self.name));
         let part_id = self.next_partition_id();
         let partition_offset = self
             .next_partition_offset
@@ -298,6 +300,8 @@ impl Table {
             for old_id in old_partitions {
                 partitions.remove(old_id);
             }
+            #[cfg(feature = "verif")]
+            crate::verif::sync_point(&format!("flush:compact:swap:mid:{}", self.name));
             partitions.insert(id, Arc::new(partition));
         }
         for (id, column) in keys {
